@@ -196,6 +196,11 @@ def check_format_input_orientation(inp, init_format=False):
         inp = Rotation.from_quat(inpQ)
     else:
         inpQ = inp.as_quat()
+    # an object path has at least one entry
+    if np.size(inpQ) == 0:
+        raise MagpylibBadUserInput(
+            "Input parameter `orientation` must not be an empty scipy `Rotation` object."
+        )
     # return
     if init_format:
         return np.reshape(inpQ, (-1, 4))
